@@ -93,6 +93,9 @@ type Result struct {
 	BadLines        uint64
 	Panic           string // non-empty: the parser goroutine panicked
 	Hang            bool
+	// what the second batch (Run2 / Run3) dispatched
+	SecondMap    *gostatsd.MetricMap
+	SecondEvents []*gostatsd.Event
 }
 
 // Dg is one datagram of the batch.
@@ -253,6 +256,10 @@ func Run3(ns string, ignoreHost bool, estimatedTags int, batch []Dg, afterParse 
 		res.Map = capt.Maps[0]
 	}
 	res.Events = capt.Events[:nEvents:nEvents]
+	if len(capt.Maps) > nMaps {
+		res.SecondMap = capt.Maps[nMaps]
+	}
+	res.SecondEvents = capt.Events[nEvents:]
 	capt.mu.Unlock()
 	cs.mu.Lock()
 	res.MetricsReceived = cs.vals["parser.metrics_received"] - primeN
